@@ -264,7 +264,18 @@ class SymbolGraph(metaclass=SingletonMeta):
         :return: All wrapped instances that refer to an instance of the given type.
         """
         # a subclass that is reachable through several bases (diamond) is listed once per path
-        classes = list(dict.fromkeys([type_] + recursive_subclasses(type_)))
+        classes = list(
+            dict.fromkeys(
+                [type_]
+                + recursive_subclasses(type_)
+                # a class that is a subclass by registration (ABC.register) is not among the __subclasses__
+                + [
+                    cls
+                    for cls in list(self._class_to_wrapped_instances)
+                    if isinstance(cls, type) and issubclass(cls, type_)
+                ]
+            )
+        )
         # the instances of all the classes as they are when the walk starts: instances that are created while it is
         # under way are left out whatever their class is (not only the ones of a class the walk has passed already)
         wrapped_instances = [
